@@ -200,12 +200,12 @@ func engineC10(c *vctx) error {
 	c.Header("Model.S_Prune Model.C10m", "C10m.case", "C10m.check_case")
 	c.Preamble("Import SPrune. Import C10m.")
 	repository.VerifC10SetLockWait(time.Millisecond)
-	kinds := []string{"dup", "unindexed", "plain", "missing-unneeded", "abort-index", "dup", "plain"}
+	kinds := []string{"dup-unindexed", "plain", "dup-missing", "missing-unneeded", "abort-index", "dup", "unindexed"}
 	optsGrid := []c10Opt{
-		{maxUnused: "0"}, {maxUnused: "0"}, {maxUnused: "0", uncompressed: true}, {maxUnused: "0"},
+		{maxUnused: "0"}, {maxUnused: "0", uncompressed: true}, {maxUnused: "0"}, {maxUnused: "0"},
 		{maxUnused: "0"}, {maxUnused: "0", small: "5M"}, {maxUnused: "0", cacheable: true},
 	}
-	nh := c.n(6, 60)
+	nh := c.n(3, 60)
 	for i := 0; i < nh; i++ {
 		rng := c.rng.fork()
 		kind := kinds[i%len(kinds)]
@@ -240,8 +240,10 @@ func engineC10(c *vctx) error {
 				return fmt.Errorf("second run %d: %v", i, err)
 			}
 			// third: pruning a clean repository again must be a no-op with exact statistics
-			if err := h.runC10(kind+"-idempotent", c10Opt{maxUnused: "0"}); err != nil {
-				return fmt.Errorf("third run %d: %v", i, err)
+			if c.thorough() || i == 0 {
+				if err := h.runC10(kind+"-idempotent", c10Opt{maxUnused: "0"}); err != nil {
+					return fmt.Errorf("third run %d: %v", i, err)
+				}
 			}
 		}
 		_ = os.RemoveAll(h.root)
